@@ -156,6 +156,9 @@ func genC15(g *Gen) {
 		"h1,h2,h3\r\n1,\"a,b\",true\r\n2,\"c\"\"d\",false\r\n",
 		"only\n",
 		"a,b,c\n1,2,\n",
+		"a,b\n1,2\n3,4,5\n6,7\n", // malformed: a line longer than the header
+		"a,b\n1,2,\n",
+		"a\n1,\"x,y\",3\n",
 	}
 	// a longer document crossing the 1 KiB scan buffer
 	long := "id,text,val\n"
